@@ -51,7 +51,7 @@ EQ_DOM = [0, 1, "a", None, [], [0], [0, 1], [1, 0], [0, 1, 2], {"a": 0}, {"a": 0
 
 
 def bounds(tier):
-    return {"partial_order_family": {"values": PO_VALUES, "chains": len(PO_CHAINS), "ops": ["<=", ">="], "approved_sets": 16, "depth": 1}, "depth": _depth(tier), "depth_sub_snapshots": 2, "int_domain": _dom(tier), "max_observations": 3, "approved_sets": "all 16 (quick: 8 for sub-snapshot states at depth >= 1)" if tier == "quick" else 16,
+    return {"constructor_call_family": {"previous": CT_PREV, "observed": "equal / second field differs / first field differs", "evaluations": [1, 2], "approved_sets": 16}, "partial_order_family": {"values": PO_VALUES, "chains": len(PO_CHAINS), "ops": ["<=", ">="], "approved_sets": 16, "depth": 1}, "depth": _depth(tier), "depth_sub_snapshots": 2, "int_domain": _dom(tier), "max_observations": 3, "approved_sets": "all 16 (quick: 8 for sub-snapshot states at depth >= 1)" if tier == "quick" else 16,
             "eq_domain": len(EQ_DOM), "seeds": {k: len(v) for k, v in SEEDS.items()}}
 
 
@@ -253,7 +253,73 @@ def _po_step(case):
     return viol, R
 
 
+# ------------------------------------------------------------------ constructor calls (dataclass / namedtuple / attrs), keyword and positional spelling
+
+CT_PRE = ("from dataclasses import dataclass\nfrom collections import namedtuple\nimport attrs\n\n\n@dataclass\nclass DC2:\n    a: int\n    b: int = 0\n\n\n"
+          "NT2 = namedtuple('NT2', 'a,b')\n\n\n@attrs.define\nclass AT2:\n    a: int\n    b: int = 0\n\n\n")
+CT_PREV = ["DC2(a=1, b=2)", "DC2(1, 2)", "DC2(1, b=2)", "NT2(a=1, b=2)", "NT2(1, 2)", "AT2(a=1, b=2)", "AT2(1, 2)"]
+
+
+def _ct_cases():
+    cases = []
+    for prev in CT_PREV:
+        cls = prev[:3]
+        for obs in ("%s(a=1, b=2)" % cls, "%s(a=1, b=3)" % cls, "%s(a=5, b=2)" % cls):
+            for n in (1, 2):
+                for F in FS:
+                    cases.append({"ct": True, "arg": prev, "obs": obs, "n": n, "F": F})
+    return cases
+
+
+def _ct_step(case):
+    """Equal value: nothing may be reported as fix (no comparison fails); different value: fix, and the value after an approved fix
+    equals the observed one.  A positional spelling is known to be reported as fix even when the value is equal (known finding)."""
+    import sys
+    import types
+    from ..drivers.inline import run_inline
+    from ..oracles.locate import snapshot_calls
+
+    arg, obs, F = case["arg"], case["obs"], set(case["F"])
+    src = "from inline_snapshot import snapshot\n" + CT_PRE + "def test_0():\n    _r = []\n" + "    _r.append(%s == snapshot(%s))\n" % (obs, arg) * 1
+    if case["n"] == 2:
+        src = src.replace("    _r.append(", "    for _ in (1, 2):\n        _r.append(", 1)
+    r = run_inline({"test_something.py": src}, sorted(F))
+    viol = []
+    mod = types.ModuleType("c05_ct")
+    sys.modules[mod.__name__] = mod
+    exec(compile(CT_PRE, "<ct>", "exec"), mod.__dict__)
+    equal = eval(arg, mod.__dict__) == eval(obs, mod.__dict__)
+    positional = "=" not in arg.split(",")[0]
+    R = set() if equal else {"fix"}
+
+    def V(what, detail, sig=None):
+        viol.append({"case": case, "what": what, "detail": detail + " | expected R=%s | source:\n%s" % (sorted(R), src[len(CT_PRE) + 36:]), "sig": sig})
+
+    if r["error"]:
+        V("internal-error", r["error"]["type"] + ": " + r["error"]["msg"][:300])
+        return viol, R
+    if r["raised"]:
+        V("test-raised", str(r["raised"])[:300])
+        return viol, R
+    txt = snapshot_calls(r["files"]["test_something.py"])[0]["arg_text"].strip()
+    got = eval(txt, mod.__dict__)
+    rep = set(r["reported"] or [])
+    want_after = eval(obs, mod.__dict__) if ("fix" in F and (not equal or (positional and rep == {"fix"}))) else eval(arg, mod.__dict__)
+    if got != want_after:
+        V("next-value-differs", "written=%s" % txt[:200])
+    elif rep - {"update"} != R:
+        sig = None
+        if equal and positional and rep == {"fix"} and ("fix" not in F or "(a" in txt.replace(" ", "").replace("=", "", 0)[:7]):
+            # residual test: the value is unchanged, and once fix is approved the call is spelled with keywords only
+            if "fix" not in F or all("=" in part for part in txt[txt.index("(") + 1 : txt.rindex(")")].split(",")):
+                sig = "positional-arguments-reported-as-fix"
+        V("categories-differ", "reported=%s for %s value" % (sorted(rep), "an equal" if equal else "a different"), sig)
+    return viol, R
+
+
 def run_case(case):
+    if case.get("ct"):
+        return _ct_step(case)[0]
     if case.get("po"):
         return _po_step(case)[0]
     return _step(case)[0]
@@ -278,7 +344,27 @@ def _po_task(task):
     return out
 
 
+def _ct_task(task):
+    out = {"n": 0, "nontrivial": [], "outcomes": {}, "violations": [], "samples": [], "states": [], "transitions": 0, "validated": 0}
+    for case in task["ct_cases"]:
+        viol, R = _ct_step(case)
+        out["n"] += 1
+        out["transitions"] += 1
+        lab = "ctor:%s" % ("+".join(sorted(R)) or "none")
+        if viol:
+            out["violations"] += viol
+            lab = "viol:" + viol[0]["what"]
+        else:
+            out["validated"] += 1
+            out["nontrivial"].append(json.dumps(case, sort_keys=True))
+        out["outcomes"][lab] = out["outcomes"].get(lab, 0) + 1
+    out["states"] = sorted({"ctor|" + c["arg"] for c in task["ct_cases"]})
+    return out
+
+
 def run_task(task):
+    if "ct_cases" in task:
+        return _ct_task(task)
     if "po_cases" in task:
         return _po_task(task)
     op, arg = task["op"], task["arg"]
@@ -329,11 +415,13 @@ def explore(tier, seed, runner):
         if depth == 0:
             po = _po_cases()
             tasks += [{"po_cases": po[i : i + CHUNK]} for i in range(0, len(po), CHUNK)]
+            ct = _ct_cases()
+            tasks += [{"ct_cases": ct[i : i + CHUNK]} for i in range(0, len(ct), CHUNK)]
         results = runner(tasks)
         new = []
         for t, r in zip(tasks, results):
             done.append((t, r))
-            if "po_cases" in t:
+            if "po_cases" in t or "ct_cases" in t:
                 if r and r[0] == "ok":
                     r[1].pop("next", None)
                 continue
